@@ -391,6 +391,11 @@ def abstract_gfile(dcmstack, spec, ds, case):
             r.append(int(y))
         pix.append(r)
     a['gpix'] = pix
+    # the rescale as nibabel applies it: stored pixels and (slope, intercept) = scale_factors[0]
+    a['stored'] = [[int(x) for x in row] for row in np.asarray(dw.get_unscaled_data()).tolist()]
+    sc = dw.scale_factors[0]
+    a['slope'], a['icpt'] = fr(float(sc[0])), fr(float(sc[1]))
+    a['den'] = den
     iopm = dw.image_orient_patient          # (3, 2): column 0 = iop[0:3], column 1 = iop[3:6]
     a['giop'] = [fr(float(iopm[r, 0])) for r in range(3)] + [fr(float(iopm[r, 1])) for r in range(3)]
     a['gipp'] = [fr(float(x)) for x in dw.image_position]
@@ -569,6 +574,11 @@ def run_conversion_case(dcmstack, case):
 # ------------------------------------------------------------------------------------------------
 # Coq case
 
+def coq_rescale(a):
+    return '(mkrescale %s %s %s %s)' % (clist(clist(cz(x) for x in row) for row in a['stored']), cQ(a['slope']), cQ(a['icpt']),
+                                        cq(Fraction(a['den'])))
+
+
 def coq_obs(case, obs):
     e = obs.get('err')
     if e is not None and e.startswith('ECrash'):
@@ -591,10 +601,10 @@ def coq_case(case, obs):
     if not isinstance(obs, dict) or 'crash' in obs or 'files' not in obs:
         raise ValueError('implementation crashed: %r' % (obs,))
     gs = [obs['files'][i] for i in case['add_order']]
-    return '(mkcase %s %s %s %s %s %s %s)' % (
+    return '(mkcase %s %s %s %s %s %s %s %s)' % (
         cbool(case.get('time_order') is not None), cbool(case.get('vector_order') is not None),
         clist(coq_gfile(a) for a in gs), copt(case.get('vo'), cstr), cbool(bool(case['exact'])),
-        clist(cmat(a['faff']) for a in gs), coq_obs(case, obs))
+        clist(cmat(a['faff']) for a in gs), clist(coq_rescale(a) for a in gs), coq_obs(case, obs))
 
 
 # ------------------------------------------------------------------------------------------------
